@@ -118,3 +118,46 @@ func HEncodeSharedContainers() {
 		vr.Assert("c20.shared.deterministic", vr.EqBytes(b1, b2))
 	}
 }
+
+// HDecodeOwnsDataEntryPoints (C20): the same through the other ways into the decoders - a caller-parsed
+// header plus DecodePayload, the payload container on its own, and a payload's own Unmarshal.
+// Params: entry (1 ParseHeader + DecodePayload, 2 container, 3 payload), tier, payload kind, 0.
+func HDecodeOwnsDataEntryPoints() {
+	entry := vr.Param(0)
+	m := VGenMessage(2, vr.Param(1))
+	enc, err := m.Encode()
+	vr.Assert("c20.entry.encode.noerr", err == nil)
+	if err != nil || len(m.Payloads) != 1 {
+		return
+	}
+	buf := make([]byte, len(enc), len(enc)+8)
+	copy(buf, enc)
+	var got IKEPayloadContainer
+	switch entry {
+	case 1:
+		h, err := ParseHeader(buf)
+		vr.Assert("c20.entry.header.noerr", err == nil)
+		if err != nil {
+			return
+		}
+		d := &IKEMessage{IKEHeader: h}
+		err = d.DecodePayload(buf[IKE_HEADER_LEN:])
+		vr.Assert("c20.entry.decode.noerr", err == nil)
+		got = d.Payloads
+	case 2:
+		err = got.Decode(buf[16], buf[IKE_HEADER_LEN:])
+		vr.Assert("c20.entry.decode.noerr", err == nil)
+	default:
+		p := vNewPayload(int(buf[16]))
+		err = p.Unmarshal(buf[IKE_HEADER_LEN+4:])
+		vr.Assert("c20.entry.decode.noerr", err == nil)
+		got = IKEPayloadContainer{p}
+	}
+	if err != nil {
+		return
+	}
+	snap := VClonePayloads(got)
+	vr.Havoc(buf)
+	vr.Assert("c20.entry.noalias", VEqPayloads(snap, got))
+	vr.Assert("c20.entry.value", VEqPayloads(m.Payloads, got))
+}
